@@ -1,5 +1,5 @@
 """C06 — hash table: unique adds never expose duplicate keys; replace is atomic (partial)."""
-from . import lfht
+from . import lfht, c09
 
 META = {
     "explanation": "Rules on _cds_lfht_add / _cds_lfht_replace / cds_lfht_replace: the duplicate search of a unique add starts only at a non-bucket node of equal reverse hash and "
@@ -17,5 +17,6 @@ RULES = [
     ("C06.pub", lambda c, r: lfht.rule_pub(c, r, "C06.pub")),
     ("C06.iter", lambda c, r: lfht.rule_iter(c, r, "C06.iter")),
     ("C06.del", lambda c, r: lfht.rule_del(c, r, "C06.del")),
+    ("C06.partition", lambda c, r: c09.rule_partition(c, r, "C06.partition")),
 ]
 FLOORS = {}
